@@ -169,3 +169,112 @@ func verifHarness_C04_breaks() {
 		verifQuiesce()
 	}
 }
+
+// verifHarness_C04_doubleBreak: a phased schedule with two failures — one target stream and the
+// source stream both break (either order) and reconnect (either order), with acknowledgements in
+// between — after a short symbolic prefix and followed by a short symbolic suffix.
+func verifHarness_C04_doubleBreak() {
+	nTgt := verifParam("targets", 2)
+	pre := verifParam("prefix", 2)
+	post := verifParam("suffix", 1)
+	maxBatch := nTgt
+	verifConfig("preempt", 0)
+	e := rtNewEnv(1, nTgt)
+	e.spread, e.fullOnly = true, true
+	e.sources = make([]*rtSource, 1)
+	e.targets = make([]*rtTarget, nTgt)
+	tgtConns := make([]*rtConn, nTgt)
+	for j := 0; j < nTgt; j++ {
+		tgtConns[j] = e.connect(1, j, 0)
+		e.targets[j] = tgtConns[j].srv
+		e.targets[j].onSend = c01OnSend
+	}
+	srcConn := e.connect(0, 0, 0)
+	e.sources[0] = srcConn.rev
+	e.sources[0].onAck = c01OnAck
+	verifQuiesce()
+	step := func(label string) {
+		// one action of the restricted alphabet: watermark, full batch, or a target acking nothing/everything
+		a := verifChoose(label, 2+nTgt)
+		switch {
+		case a == 0:
+			if !srcConn.alive {
+				verifAssume(false)
+			}
+			verifAction("watermark")
+			e.emitBatch(e.sources[0], 0)
+		case a == 1:
+			if !srcConn.alive {
+				verifAssume(false)
+			}
+			verifAction("batch")
+			e.emitBatch(e.sources[0], maxBatch)
+		default:
+			j := a - 2
+			if !tgtConns[j].alive {
+				verifAssume(false)
+			}
+			t := e.targets[j]
+			k := 0
+			if left := len(t.ids) - t.processed; left > 0 {
+				k = verifChoose("processall", 2) * left
+			}
+			if !e.targetAck(t, k) {
+				verifAssume(false)
+			}
+			verifAction("target-ack")
+		}
+		verifQuiesce()
+		verifQuiesce()
+	}
+	for i := 0; i < pre; i++ {
+		step("prefix-action")
+	}
+	j := verifChoose("broken-target", nTgt)
+	breakT := func() { verifAction("break-target"); e.breakConn(tgtConns[j]); verifQuiesce(); verifQuiesce() }
+	breakS := func() { verifAction("break-source"); e.breakConn(srcConn); verifQuiesce(); verifQuiesce() }
+	reconT := func() {
+		verifAction("reconnect-target")
+		tgtConns[j] = e.connect(1, j, 1)
+		e.targets[j] = tgtConns[j].srv
+		e.targets[j].onSend = c01OnSend
+		verifQuiesce()
+		verifQuiesce()
+	}
+	reconS := func() {
+		verifAction("reconnect-source")
+		old := e.sources[0]
+		srcConn = e.connect(0, 0, 1)
+		ns := srcConn.rev
+		ns.lastID, ns.lastHigh = old.lastID, old.lastHigh
+		ns.onAck = c01OnAck
+		e.sources[0] = ns
+		verifQuiesce()
+		verifQuiesce()
+	}
+	if verifChoose("break-order", 2) == 0 {
+		breakT()
+		breakS()
+	} else {
+		breakS()
+		breakT()
+	}
+	if verifChoose("reconnect-order", 2) == 0 {
+		reconT()
+		if verifChoose("ack-between", 2) == 1 {
+			if e.targetAck(e.targets[j], 0) {
+				verifAction("target-ack")
+				verifQuiesce()
+				verifQuiesce()
+			}
+		}
+		reconS()
+	} else {
+		reconS()
+		reconT()
+	}
+	verifReach("both-reconnected")
+	for i := 0; i < post; i++ {
+		step("suffix-action")
+	}
+}
